@@ -227,3 +227,76 @@ def test_c14_strong_coupling_state_inside_equals_outside():
     with qr.eigenbasis_of(H):
         inside = agg.get_DensityMatrix(**kw)
     assert numpy.allclose(out.data, inside.data, atol=1e-12)
+
+
+# ---- later repairs --------------------------------------------------------------------------
+def test_c08_locate_own_points():
+    t = qr.TimeAxis(0.0, 4, 0.7)
+    for i, x in enumerate(t.data):
+        n, d = t.locate(x)
+        assert n == i and abs(d) < 1e-12
+
+
+def test_c17_is_subset_of_inexact_step():
+    big = qr.TimeAxis(0.0, 440, 0.1)
+    sub = qr.TimeAxis(0.0, 10, 4.3)
+    assert sub.is_subset_of(big)
+
+
+def test_c04_evolution_superoperator_at_owns_its_data():
+    time = qr.TimeAxis(0.0, 3, 1.0)
+    h = numpy.array([[0.0, 0.3], [0.3, 1.0]])
+    ham = qr.Hamiltonian(data=h)
+    U = qr.qm.EvolutionSuperOperator(time, ham)
+    U.calculate()
+    before = numpy.array(U.data, copy=True)
+    K = qr.Hamiltonian(data=numpy.array([[0.0, 1.0], [1.0, 0.5]]))
+    with qr.eigenbasis_of(K):
+        s = U.at(1.0)
+        _ = s.data
+        _ = U.data
+    assert numpy.allclose(U.data, before, atol=1e-12)
+
+
+def test_c04_evolution_superoperator_apply_copy_restored():
+    time = qr.TimeAxis(0.0, 3, 1.0)
+    ham = qr.Hamiltonian(data=numpy.array([[0.0, 0.3], [0.3, 1.0]]))
+    U = qr.qm.EvolutionSuperOperator(time, ham)
+    U.calculate()
+    rho = qr.ReducedDensityMatrix(data=numpy.array([[0.7, 0.2], [0.2, 0.3]], dtype=complex))
+    ref = U.apply(0.0, rho)
+    K = qr.Hamiltonian(data=numpy.array([[0.0, 1.0], [1.0, 0.5]]))
+    with qr.eigenbasis_of(K):
+        _ = rho.data
+        out = U.apply(0.0, rho)
+    assert out.get_current_basis() == 0
+    assert numpy.allclose(out.data, ref.data, atol=1e-12)
+
+
+def test_c01_foerster_pure_dephasing_hermiticity():
+    from quantarhei.qm.liouvillespace.foerstertensor import FoersterRelaxationTensor
+    ta = qr.TimeAxis(0.0, 500, 1.0)
+    with qr.energy_units("1/cm"):
+        ms = []
+        for e in (12000.0, 12150.0, 12300.0):
+            m = qr.Molecule(elenergies=[0.0, e])
+            cf = qr.CorrelationFunction(ta, dict(ftype="OverdampedBrownian", reorg=30.0,
+                                                 cortime=60.0, T=300.0, matsubara=20))
+            m.set_transition_environment((0, 1), cf)
+            ms.append(m)
+        agg = qr.Aggregate(molecules=ms)
+        agg.set_resonance_coupling(0, 1, 40.0)
+        agg.set_resonance_coupling(1, 2, -25.0)
+    agg.build()
+    ham = agg.get_Hamiltonian()
+    sbi = agg.get_SystemBathInteraction()
+    ham.protect_basis()
+    try:
+        RT = FoersterRelaxationTensor(ham, sbi, pure_dephasing=True)
+    finally:
+        ham.unprotect_basis()
+    R = numpy.array(RT.data)
+    n = R.shape[0]
+    for a in range(n):
+        for b in range(n):
+            assert abs(numpy.conj(R[a, b, a, b]) - R[b, a, b, a]) < 1e-12 * max(1.0, abs(R).max())
